@@ -1650,6 +1650,46 @@ def rule_P9(ctx, reader, obj, rid='P9'):
                'order is lexicographic (..._10 before ..._2), so lists restored this way are '
                'permuted against their sibling records once there are more than ten'
                % unparse(used[0]))
+    # probed restore: `i = 0; while key(i) in group: append(read(group[key(i)])); i += 1`
+    from .exprs import as_aug
+    for lp in walk_no_nested(reader.node):
+        if not isinstance(lp, ast.While):
+            continue
+        probes = [x for x in ast.walk(lp.test) if isinstance(x, ast.Compare) and
+                  len(x.ops) == 1 and isinstance(x.ops[0], (ast.In, ast.NotIn)) and
+                  _is_group(x.comparators[0], gv) and key_template(x.left)[0]]
+        if not probes:
+            continue
+        pr = probes[0]
+        key, kargs = key_template(pr.left)
+        pol = isinstance(pr.ops[0], ast.In)
+        t = lp.test
+        while isinstance(t, ast.UnaryOp) and isinstance(t.op, ast.Not):
+            pol = not pol
+            t = t.operand
+        reads = [x for st in lp.body for x in ast.walk(st) if isinstance(x, ast.Subscript) and
+                 _is_group(x.value, gv) and key_template(x.slice)[0] == key]
+        idx = [a.id for a in (kargs or []) if isinstance(a, ast.Name)]
+        steps = [st for st in lp.body if as_aug(st) is not None and
+                 isinstance(as_aug(st)[0], ast.Name) and as_aug(st)[0].id in idx]
+        step_ok = bool(steps) and all(isinstance(as_aug(st)[1], ast.Add) and
+                                      const_value(as_aug(st)[2]) == 1 for st in steps)
+        starts = [st for st in walk_no_nested(reader.node) if isinstance(st, ast.Assign) and
+                  isinstance(st.targets[0], ast.Name) and st.targets[0].id in idx and
+                  st.lineno < lp.lineno and as_aug(st) is None]
+        start_ok = bool(starts) and const_value(starts[-1].value) == 0 and \
+            not isinstance(const_value(starts[-1].value), bool)
+        ok = pol and bool(reads) and step_ok and start_ok
+        n += 1
+        ctx.ob(rid, '%s:probed-restore(%s)' % (reader.qualname, key), ok, reader.where(lp),
+               'elements %r are read for i = 0, 1, 2, ... as long as the key exists' % key if ok
+               else 'the loop that restores %r does not read element i for i = 0, 1, 2, ... while '
+               'the key exists (%s): elements are skipped or the loop never runs' % (
+                   key, ', '.join(w for w, c in (
+                       ('continues while the key is ABSENT', not pol),
+                       ('does not read the probed key', not reads),
+                       ('index does not advance by one', not step_ok),
+                       ('index does not start at 0', not start_ok)) if c)))
     for lp in walk_no_nested(reader.node):
         it = None
         if isinstance(lp, ast.For):
@@ -1932,4 +1972,108 @@ def rule_P11(ctx, rid='P11'):
                    'the writer stores the class name of the member under %r' % key if okw else
                    'the writer does not store `__class__.__name__` of the member under %r, which '
                    'the reader compares with class names' % key)
+    return n
+
+
+# ---------------------------------------------------------------------------
+# P12 a reader visits every index the writer emitted
+# ---------------------------------------------------------------------------
+
+def rule_P12(ctx, reader, obj, rid='P12'):
+    """List members stored under an indexed key ('bound_{}', 'points_{}', ...) are written for
+    every position of the list (enumerate / range(len)); the reader must ask for exactly the
+    positions 0..N-1, N being the length of a sibling record it restored -- by a range whose
+    bounds are evaluated for N = 0..6, together with indices it reads literally."""
+    ctx.rule(rid, 'index domain: a reader restores the elements of an indexed key for exactly '
+             'the indices 0 .. N-1 (range bounds evaluated for N = 0..6 against the length of '
+             'the sibling record; literally read indices included)')
+    from .rowfacts import eval_index_expr, _Cannot
+    gv = _group_vars(reader)
+    R = reader_table(reader, obj)
+    by_key = {}
+    for e in R:
+        if '{}' in e.key and e.kind in ('dataset', 'group'):
+            by_key.setdefault(e.key, []).append(e)
+    par = _parents(reader.node)
+    n = 0
+    for key, entries in sorted(by_key.items()):
+        ranges, literal = [], set()
+        undecided = False
+        for e in entries:
+            args = e.key_args or []
+            if len(args) != 1:
+                undecided = True
+                continue
+            a = args[0]
+            if isinstance(a, ast.Constant) and isinstance(a.value, int):
+                literal.add(a.value)
+                continue
+            if not isinstance(a, ast.Name):
+                undecided = True
+                continue
+            # the loop / comprehension that binds the index
+            p = e.node
+            it = None
+            while p is not None:
+                p = par.get(id(p))
+                if isinstance(p, ast.For) and isinstance(p.target, ast.Name) and \
+                        p.target.id == a.id:
+                    it = p.iter
+                    break
+                if isinstance(p, (ast.ListComp, ast.GeneratorExp)):
+                    for g in p.generators:
+                        if isinstance(g.target, ast.Name) and g.target.id == a.id:
+                            it = g.iter
+                    if it is not None:
+                        break
+            if it is None or not (isinstance(it, ast.Call) and dotted(it.func) == 'range'):
+                undecided = True
+                continue
+            ranges.append((it, e))
+        # literal keys spelled out as constants ('bound_0')
+        base = key.replace('{}', '')
+        for e in R:
+            if e.key.startswith(base) and e.key != key and e.key[len(base):].isdigit():
+                literal.add(int(e.key[len(base):]))
+        if undecided or not ranges:
+            continue
+        # the length symbol: the single len(<expr>) used in the range bounds
+        lens = {unparse(x.args[0]) for it, _ in ranges for x in ast.walk(it)
+                if isinstance(x, ast.Call) and dotted(x.func) == 'len' and x.args}
+        if len(lens) != 1:
+            ctx.note('%s not decided for %s in %s: range bounds use %s' % (
+                rid, key, reader.qualname, sorted(lens) or 'no length'))
+            continue
+        lname = next(iter(lens))
+        ok, cex = True, None
+        lo = max(literal) + 1 if literal else 0
+        for N in range(lo, 7):
+            got = set(literal)
+            try:
+                for it, _ in ranges:
+                    class _L(ast.NodeTransformer):
+                        def visit_Call(self, node):
+                            self.generic_visit(node)
+                            if dotted(node.func) == 'len' and node.args and \
+                                    unparse(node.args[0]) == lname:
+                                return ast.copy_location(ast.Constant(value=N), node)
+                            return node
+                    import copy
+                    got |= set(eval_index_expr(_L().visit(copy.deepcopy(it)), {}))
+            except _Cannot as exc:
+                ok = None
+                ctx.note('%s not decided for %s: %s' % (rid, key, exc))
+                break
+            if got != set(range(N)):
+                ok, cex = False, (N, sorted(got))
+                break
+        if ok is None:
+            continue
+        n += 1
+        ctx.ob(rid, '%s:index-domain(%s)' % (reader.qualname, key), ok,
+               ranges[0][1].where,
+               'keys %r are read for every index 0 .. len(%s)-1' % (key, lname) if ok else
+               'for len(%s) = %d the reader asks for indices %s of %r, not 0 .. %d: an element '
+               'the writer stored is never restored (or a missing one is requested)'
+               % (lname, cex[0], cex[1], key, cex[0] - 1))
     return n
